@@ -197,8 +197,10 @@ fn main() {
         }
         // F. growth across many small regions, inside one transaction and across transactions, then shrinking and compaction:
         // every new region starts partial (the file is extended to what is needed, not to a whole region)
-        for (variant, (page_size, region)) in [(512usize, 1u64 << 14), (512, 1 << 15), (1024, 1 << 15)].into_iter().enumerate() {
-            let cfg = Config { seed: seed + variant as u64, page_size, region_size: Some(region), cache_size: [1 << 20, 0, 1 << 14][variant], nkeys: 64,
+        for (variant, (page_size, region)) in [(512usize, 1u64 << 14), (512, 1 << 15), (1024, 1 << 15), (512, 3 << 19), (4096, 3 << 19), (1024, 5 << 18)].into_iter().enumerate() {
+            // (the last three: a region larger than the initial file - the first growth turns one region into a full one
+            // plus a partial one)
+            let cfg = Config { seed: seed + variant as u64, page_size, region_size: Some(region), cache_size: [1 << 20, 0, 1 << 14][variant % 3], nkeys: 64,
                                vlens: default_vlens(page_size), sel: None };
             let store = Store::new();
             store.enable_calllog();
